@@ -133,6 +133,7 @@ type Harness struct {
 
 	child *rig.Child
 
+	collected    map[string]string
 	lastFailCase json.RawMessage
 	lastFail     *Failure
 	rule         string
@@ -267,6 +268,25 @@ func (h *Harness) check(rt *rapid.T, c any, f *Failure) {
 	}
 
 	buf, _ := json.Marshal(c)
+
+	// Development aid: collect one example per signature and keep searching.
+	if os.Getenv("VERIF_COLLECT") != "" {
+		h.mu.Lock()
+		if h.collected == nil {
+			h.collected = map[string]string{}
+		}
+
+		h.knownSeen["collect:"+f.Sig]++
+
+		if _, ok := h.collected[f.Sig]; !ok {
+			h.collected[f.Sig] = f.String() + "\nCASE: " + string(buf)
+			fmt.Printf("COLLECTED %s\n%s\nCASE: %s\n\n", f.Sig, head(f.String(), 1800), head(string(buf), 3000))
+		}
+		h.mu.Unlock()
+
+		return
+	}
+
 	h.lastFailCase = buf
 	h.lastFail = f
 	rt.Fatalf("%s", f)
@@ -600,6 +620,8 @@ type propDef struct {
 	run      func(h *Harness, child *rig.Child, c any) *Failure
 	// enumerate runs the bounded-exhaustive part (shard 0 only).
 	enumerate func(h *Harness, report func(c any, f *Failure))
+	// setup runs once before anything else (e.g. to ask the child for its bind tables).
+	setup func(h *Harness)
 }
 
 func runProp(t *testing.T, d propDef) {
@@ -626,6 +648,10 @@ func runProp(t *testing.T, d propDef) {
 	}
 
 	defer h.finishRapid(d.check, confirm)
+
+	if d.setup != nil {
+		d.setup(h)
+	}
 
 	child := func() *rig.Child {
 		if d.noChild {
@@ -705,7 +731,9 @@ func runProp(t *testing.T, d propDef) {
 
 	rapid.Check(t, func(rt *rapid.T) {
 		c := d.gen(rt)
+		f := d.run(h, child(), c)
+		// classified after the run: some rules depend on what the session reached
 		h.count(c, d.classify(h, c))
-		h.check(rt, c, d.run(h, child(), c))
+		h.check(rt, c, f)
 	})
 }
